@@ -159,6 +159,27 @@ func runC07(c *Ctx) {
 		r.Check(lockPath != "" && !plainUnlockBetween && allExitsUnlock, "R2", key, c.pos(bufWrite), "Write and Flush under the same "+lockPath+" acquisition; released by defer / on every exit", "Write and Flush of one message are not inside one critical section (or the mutex is not released on every exit): another writer's bytes can land between them")
 	}
 
+	// the connection's buffered writer is never reset: Reset drops the bytes it still holds, i.e. the tail of
+	// a message whose head may already be on the wire
+	{
+		nReset := 0
+		for _, f := range c.P.LibraryFuncs() {
+			for _, ci := range flow.CallInstrs(f) {
+				if !flow.IsCallTo(ci, "bufio", "Writer", "Reset") {
+					continue
+				}
+				if isFreshBase(ci.Common().Args[0]) {
+					continue
+				}
+				nReset++
+				r.Fail("R2", fname(f)+":writer-reset", c.pos(ci), "the connection's bufio.Writer is Reset on the write path: bytes of a message that were buffered but not yet flushed are dropped while its first bytes may already have been sent — the peer sees a truncated message followed by the next one")
+			}
+		}
+		if nReset == 0 {
+			r.Ok("R2", "ConnWriter:never-reset", "-", "no library function resets a connection's buffered writer")
+		}
+	}
+
 	// ---- R3 / R4 ----
 	c.c07HandOff()
 
